@@ -72,9 +72,11 @@ package sender
 // (I/O errors are never the fs.SkipDir sentinel)
 //@ extern (sender.FileSource).Open params s, name
 //@   effect srcread(data(s))
+//@   fresh
 //@   modifies ghost.fpos
 //@   ensures err != nil ==> result == nil
 //@   ensures err == nil ==> result != nil && ghost.fpos == store(old(ghost.fpos), data(result), 0)
+//@   ensures err != nil ==> ghost.fpos == old(ghost.fpos)
 //@   ensures !isSkipDir(err)
 //@ extern (sender.FileSource).Readlink params s, name
 //@   effect srcread(data(s))
@@ -87,6 +89,7 @@ package sender
 //@   modifies contents(p), ghost.fpos
 //@   ensures 0 <= result && result <= len(p)
 //@   ensures ghost.fpos == store(old(ghost.fpos), data(f), old(select(ghost.fpos, data(f))) + result)
+//@   ensures select(ghost.fpos, data(f)) <= 4611686018427387904
 //@   ensures forall k :: 0 <= k && k < result ==> p[k] == fbyte(data(f), old(select(ghost.fpos, data(f))) + k)
 //@   ensures staticFile(data(f)) ==> old(select(ghost.fpos, data(f))) + result <= fsize(data(f))
 //@   ensures staticFile(data(f)) && old(select(ghost.fpos, data(f))) < fsize(data(f)) && len(p) > 0 ==> err == nil && result > 0
@@ -187,6 +190,8 @@ package sender
 // Representation invariant of the sliding read window.
 //@ spec func winOK(ms: *sender.mapStruct): bool = 0 <= ms.pOffset && 0 <= ms.pLen && ms.pLen <= len(ms.window) && ms.pSize == len(ms.window) && mod(ms.pOffset, 1024) == 0 && ms.fileSize == fsize(data(ms.f)) && ms.pOffset + ms.pLen <= ms.fileSize && ms.fileSize <= 4611686018427387904 && ms.defWindowSize >= 1024 && ms.defWindowSize <= 4294967296 && mod(ms.defWindowSize, 1024) == 0 && ms.pFdOffset == select(ghost.fpos, data(ms.f)) && (forall k :: 0 <= k && k < ms.pLen ==> ms.window[k] == fbyte(data(ms.f), ms.pOffset + k))
 //@ func (*sender.mapStruct).ptr
+//@   nowrap[C02]
+//@   unreachable return@4
 //@   modifies sender.mapStruct.pOffset, sender.mapStruct.pFdOffset, sender.mapStruct.window, sender.mapStruct.pSize, sender.mapStruct.pLen, sender.mapStruct.err, E:byte, ghost.fpos
 //@   requires[C02] [window-invariant] winOK(ms)
 //@   requires[C02] [range-in-file] 0 <= offset && offset + l <= ms.fileSize
@@ -198,6 +203,7 @@ package sender
 //@   ensures[C02] [same-file] ms.f == old(ms.f) && ms.fileSize == old(ms.fileSize)
 //@   loop[C02] 0: invariant [read-progress] 0 <= readOffset && 0 <= readSize && readOffset + readSize == ms.pLen && ms.pLen <= len(ms.window) && ms.pFdOffset == ms.pOffset + readOffset && ms.pFdOffset == select(ghost.fpos, data(ms.f)) && ms.pOffset + ms.pLen <= ms.fileSize
 //@   loop[C02] 0: invariant [window-prefix-read] forall k :: 0 <= k && k < readOffset ==> ms.window[k] == fbyte(data(ms.f), ms.pOffset + k)
+//@   loop[C02] 0: invariant [request-inside-window] alignFudge == mod(offset, 1024) && len == l && alignFudge + len <= ms.pLen
 //@   loop[C02] 0: invariant [fields-stable] ms.f == old(ms.f) && ms.fileSize == old(ms.fileSize) && ms.fileSize == fsize(data(ms.f)) && ms.pSize == len(ms.window) && mod(ms.pOffset, 1024) == 0 && ms.pOffset == offset - mod(offset, 1024) && ms.defWindowSize == old(ms.defWindowSize) && 0 <= ms.pOffset
 // simpleSendToken emits the literal run [offset, offset+n) of the source file
 // as consecutive chunks, each announced by its positive length, and then the
@@ -237,7 +243,8 @@ package sender
 // sendFile (no basis at the receiver): the file is sent as consecutive
 // literal chunks, each exactly the next unsent range of the file, up to its end.
 //@ func (*sender.Transfer).sendFile
-//@   loop[C02] 0: invariant [sent-prefix] 0 <= offset && select(ghost.fpos, data(f)) == offset && len(buf) == 262144
+//@   nowrap[C02]
+//@   loop[C02] 0: invariant [sent-prefix] 0 <= offset && offset <= 4611686018427387904 && select(ghost.fpos, data(f)) == offset && len(buf) == 262144
 //@   at[C02] (*rsyncwire.Conn).WriteInt32@2: assert [chunk-length-announced] arg1 == len(chunk) && 0 <= arg1
 //@   at[C02] (io.Writer).Write@1: assert [chunk-is-next-file-range] isFileSeg(arg0, data(f), offset)
 //@   at[C02] (*rsyncwire.Conn).WriteInt32@3: assert [whole-file-sent] arg1 == 0 && (staticFile(data(f)) ==> offset == fsize(data(f)))
